@@ -819,6 +819,19 @@ func (r *run) schedule(wg *sync.WaitGroup, out *outcome) {
 		}
 		si++
 		pick := parked[int(b)%len(parked)]
+		if b&0x80 != 0 {
+			// adversarial choice: keep actors that sit in a wait window (cursor read, not yet
+			// locked / about to wait) parked and run somebody else, if there is somebody else
+			var others []*actor
+			for _, a := range parked {
+				if n := len(a.at); !(n > 8 && (a.at[n-8:] == "pre-lock" || a.at[n-8:] == "pre-wait")) {
+					others = append(others, a)
+				}
+			}
+			if len(others) > 0 && len(others) < len(parked) {
+				pick = others[int(b&0x7f)%len(others)]
+			}
+		}
 		r.mu.Lock()
 		r.trace = append(r.trace, pick.name+"@"+pick.at)
 		if pick.at != "between-ops" && pick.at != "start" {
